@@ -1,6 +1,8 @@
 import PlcProofs.Props.C03
 import PlcProofs.Lemmas.Graph
 
+import PlcProofs.Lemmas.PermCodes
+
 /-!
 # C06 — the result is independent of declaration order, file partition and file order
 
@@ -117,6 +119,58 @@ theorem verdict_perm_partial (ds ds' : List ADecl) (h : ds.Perm ds')
   · rintro ⟨h1, h2, rest⟩
     have h2' := (duplicate_stage_perm ds ds' h).mpr h2
     exact ⟨h1, h2', (hlookup h1 h2').mpr rest⟩
+
+open PermLookup PermCodes
+
+/-- Full statement, no hypothesis left: whether the analysis accepts a unit does not depend on the order
+of its declarations. -/
+theorem verdict_perm (ds ds' : List ADecl) (h : ds.Perm ds') :
+    (analyzeDecls ds = [] ↔ analyzeDecls ds' = []) :=
+  verdict_perm_partial ds ds' h
+    (fun _ hd => lookup_stages_perm h hd ((duplicate_stage_perm ds ds' h).mp hd))
+
+/-- … and neither does the set of codes it may report. -/
+theorem codes_perm (ds ds' : List ADecl) (h : ds.Perm ds') (c : Nat) :
+    c ∈ (analyzeDecls ds).flatten ↔ c ∈ (analyzeDecls ds').flatten := by
+  unfold analyzeDecls
+  rw [← recursive_stage_perm ds ds' h]
+  by_cases hr : recursive ds = true
+  · simp [hr]
+  · simp only [hr, Bool.false_eq_true, if_false]
+    by_cases hdn : dupCodes ds = []
+    · have hdn' := (duplicate_stage_perm ds ds' h).mp hdn
+      simp only [hdn, hdn', List.isEmpty_nil, Bool.not_true, Bool.false_eq_true, if_false]
+      rw [← aliasUnsupported_perm h hdn, ← exprUnsupported_perm h, ← typeFbClash_perm h]
+      by_cases h1 : aliasUnsupported ds = true
+      · simp [h1]
+      · simp only [h1, Bool.false_eq_true, if_false]
+        by_cases h2 : exprUnsupported ds = true
+        · simp [h2]
+        · simp only [h2, Bool.false_eq_true, if_false]
+          by_cases h3 : typeFbClash ds = true
+          · simp [h3]
+          · have h3' : typeFbClash ds = false := by simpa using h3
+            simp only [h3, Bool.false_eq_true, if_false]
+            rw [← typeInitUnsupported_perm h hdn h3']
+            by_cases h4 : typeInitUnsupported ds = true
+            · simp [h4]
+            · simp only [h4, Bool.false_eq_true, if_false]
+              rw [← (unknownTypes_perm h hdn h3').isEmpty_eq]
+              by_cases h5 : (unknownTypes ds).isEmpty = true
+              · simp only [h5, Bool.not_true, Bool.false_eq_true, if_false]
+                exact rules_mem h c hdn h3'
+              · simp [h5]
+    · have hdn' : ¬ dupCodes ds' = [] := fun e => hdn ((duplicate_stage_perm ds ds' h).mpr e)
+      have e1 : (dupCodes ds).isEmpty = false := by cases hh : dupCodes ds <;> simp_all
+      have e2 : (dupCodes ds').isEmpty = false := by cases hh : dupCodes ds' <;> simp_all
+      simp only [e1, e2, Bool.not_false, if_true]
+      simp only [List.mem_flatten, List.mem_map, List.mem_eraseDups]
+      constructor
+      · rintro ⟨l, ⟨x, hx, rfl⟩, hc⟩
+        exact ⟨[x], ⟨x, (dupCodes_mem_perm h x).mp hx, rfl⟩, hc⟩
+      · rintro ⟨l, ⟨x, hx, rfl⟩, hc⟩
+        exact ⟨[x], ⟨x, (dupCodes_mem_perm h x).mpr hx, rfl⟩, hc⟩
+
 
 /-! ### non-vacuity -/
 
